@@ -69,6 +69,7 @@ ALIAS_METHODS = {
     'get', 'values', 'items', 'pop', 'popitem', 'setdefault', '__getitem__',
     'swapaxes', 'diagonal',
 }
+FRESH_SHARED_METHODS = {'shrink_dsp', 'get_sub_dsp', 'get_sub_dsp_from_workflow'}
 MUTATING_METHODS = {
     'sort', 'resize', 'fill', 'update', 'append', 'extend', 'insert', 'remove',
     'pop', 'popitem', 'clear', 'setdefault', 'add', 'discard',
@@ -463,6 +464,10 @@ class Effects:
             if m in FRESH_METHODS:
                 return E
             recv = self.alias2(fi, call.func.value, state)
+            if m in FRESH_SHARED_METHODS:
+                # schedula: a new Dispatcher whose node-attribute dicts are
+                # the originals (shallow copy of `nodes`)
+                return (FRESH, recv[0] | recv[1])
             if m in ALIAS_METHODS:
                 both = recv[0] | recv[1]
                 return (both, both)
